@@ -22,7 +22,7 @@ CHECKS = {
    "notify flag 0/1 only; handlers return; the handler's own answer is predicted by running the same handler in-process.",
    "DESIGN.md §4 C03"),
  "C04": ("exploration",
-   "property-based + bounded-exhaustive schedule generation against a scripted peer: all K! reply orders (K<=5 quick / 6 thorough) for three clients, random valid interleavings of receive/answer events up to K=64 with injected unknown-id, duplicate and notify-reuse frames; self-identifying response bodies as oracle; a verif-hooks probe (client.written) holds the caller after its write until the response has been processed (overtake sub-check); a call whose body fails to serialize between other calls (failed-body)",
+   "property-based + bounded-exhaustive schedule generation against a scripted peer: all K! reply orders (K<=5 quick / 6 thorough) for three clients, random valid interleavings of receive/answer events up to K=64 with injected unknown-id, duplicate and notify-reuse frames; self-identifying response bodies as oracle; a verif-hooks probe (client.written) holds the caller after its write until the response has been processed (overtake sub-check); a call whose body fails to serialize between other calls (failed-body); batches of up to 64 on the async clients; the WebSocket client with and without a notification subscriber",
    "Each of K concurrent calls must return the body that names its own path, batch results must be positional, injected notifies must reach only the subscriber (exactly once), and all ids on a connection must be distinct, for every generated reply order and injection pattern on Client, AsyncClient and WebSocketClient (async clients on a multi-thread runtime so reader and callers run in parallel).",
    "Thread/task interleavings are sampled by the OS scheduler, not enumerated; the model-checking clause of the quantifier is outside this technique.",
    "DESIGN.md §4 C04"),
@@ -33,12 +33,12 @@ CHECKS = {
    "DESIGN.md §4 C09"),
  "C05": ("fault_enumeration",
    "generated fault/schedule scenarios (proptest) against scripted peers with tuned socket buffers; byte-exact stream-grammar oracle over the captured connection bytes",
-   "For concurrent writers (2..32, payloads straddling 8191/8192/8193/65535/65536/1-3 MiB) on all three clients, for the blocking client's write timeout against a stalled peer, for async/WebSocket calls abandoned mid-send, and for Server/AsyncServer write timeouts against a stalled reader, the captured byte stream must be whole images of distinct issued frames followed by at most one proper prefix and nothing after it. On the WebSocket server (inline and off-reader responses, handler-pushed notifies and broadcasts from another thread, stalled peer, outbound capacities 1..1024) every message the peer receives must be exactly one frame and the byte image of one issued message. Also: small requests abandoned one after another on a full socket (AsyncClient), and other threads queued on the writer when the blocking client's write times out.",
+   "For concurrent writers (2..32, payloads straddling 8191/8192/8193/65535/65536/1-3 MiB) on all three clients, for the blocking client's write timeout against a stalled peer, for async/WebSocket calls abandoned mid-send, and for Server/AsyncServer write timeouts against a stalled reader, the captured byte stream must be whole images of distinct issued frames followed by at most one proper prefix and nothing after it. On the WebSocket server (inline and off-reader responses, handler-pushed notifies and broadcasts from another thread, stalled peer, outbound capacities 1..1024) every message the peer receives must be exactly one frame and the byte image of one issued message. Also: small requests abandoned one after another on a full socket (AsyncClient), and other threads queued on the writer when the blocking client's write times out; the WebSocket-server scenario also with a lowered assumed peer limit (replacement replies must be whole frames) and the server-stall scenario also with handler-chosen response queries.",
    "Timing only selects which side of a race occurs; the oracle is timing-free. Payloads up to 12 MiB.",
    "DESIGN.md §4 C05"),
  "C06": ("fault_enumeration",
    "enumerated fault x step grid plus proptest-generated fault cases against scripted TCP/WebSocket peers; watchdog-bounded 'must return' obligations; timeout/cancel races with a verif-hooks residue probe",
-   "For each client and each fault (close, RST, half-close, bad magic, length mismatch, truncated header, unallocatable length, partial response at 5 byte offsets then close/RST, WS text frame, WS protocol violation, WS Close frame with TCP kept open; optionally a peer that stays silent after the malformed frame) injected after j requests were read and a were answered with 0..16 calls in flight: every unanswered call and a later call must return Err within 10 s, the notify subscriber must see end-of-stream, and the pending map must be empty; timeout races (response at timeout +-5 ms, never answered, or task abort) must leave no residue and not disturb other calls, also through AsyncClient::forward_message_with_timeout, whose caller-chosen id must be reusable at once. A fault delivered while another send is parked on a peer that stopped reading (parked-send) must still fail the calls in flight and end the notification stream.",
+   "For each client and each fault (close, RST, half-close, bad magic, length mismatch, truncated header, unallocatable length, partial response at 5 byte offsets then close/RST, WS text frame, WS protocol violation, WS Close frame with TCP kept open; optionally a peer that stays silent after the malformed frame) injected after j requests were read and a were answered with 0..16 calls in flight: every unanswered call and a later call must return Err within 10 s, the notify subscriber must see end-of-stream, and the pending map must be empty; timeout races (response at timeout +-5 ms, never answered, or task abort) must leave no residue and not disturb other calls, also through AsyncClient::forward_message_with_timeout, whose caller-chosen id must be reusable at once. A fault delivered while another send is parked on a peer that stopped reading (parked-send) must still fail the calls in flight and end the notification stream; after a blocking client's large write timed out part-way a later call without a timeout returns an error.",
    "Watchdog 10 s; either outcome accepted in a race; answered calls may fail after RST.",
    "DESIGN.md §4 C06"),
  "C07": ("exploration",
@@ -78,7 +78,7 @@ CHECKS = {
    "DESIGN.md §4 C14"),
  "C15": ("fault_enumeration",
    "enumerated exit-cause x phase x entry-point grid plus proptest-generated multi-connection cases (1..32 concurrent) against the WebSocket server, in-process over duplex streams and through the real accept loops; hook counters and registry lookups as oracle",
-   "For every exit cause (clean close, abrupt loss, text frame, unmasked frame, bad magic, trailing bytes, inline handler panic, connect-callback panic first/second, embedder cancellation, graceful-drain shutdown, failed handshakes) crossed with the connection phase (idle, inline handler running, off-reader handler parked, unread outbound backlog) and the entry point: the disconnect callback runs exactly once (never for a failed handshake), the peer and its alias resolve from connect hooks, handlers and just before the trigger and no longer afterwards, the connect-queued notifies precede the first response in order, and parked off-reader handlers observe cancellation. An embedder cancellation must end the connection also while the reader is parked on a full outbound queue and the client keeps not reading; cancellation before or around the connect callbacks leaves connect and disconnect callbacks paired (each exactly once). A server without any disconnect callback or registry still cancels parked handlers; two servers feeding one registry keep distinct ids and each peer present until its own disconnect.",
+   "For every exit cause (clean close, abrupt loss, text frame, unmasked frame, bad magic, trailing bytes, inline handler panic, connect-callback panic first/second, embedder cancellation, graceful-drain shutdown, failed handshakes) crossed with the connection phase (idle, inline handler running, off-reader handler parked, unread outbound backlog) and the entry point: the disconnect callback runs exactly once (never for a failed handshake), the peer and its alias resolve from connect hooks, handlers and just before the trigger and no longer afterwards, the connect-queued notifies precede the first response in order, and parked off-reader handlers observe cancellation. An embedder cancellation must end the connection also while the reader is parked on a full outbound queue and the client keeps not reading; cancellation before or around the connect callbacks leaves connect and disconnect callbacks paired (each exactly once). A server without any disconnect callback or registry still cancels parked handlers; two servers feeding one registry keep distinct ids and each peer present until its own disconnect; a parked inline handler observes the embedder's cancellation; the peer stays resolvable while only the server's sending direction has failed (half-dead).",
    "10 s watchdog; cooperative parked handlers; embedder cancel via serve_connection_with_cancel.",
    "DESIGN.md §4 C15"),
  "C16": ("exploration",
